@@ -11,7 +11,7 @@ from . import cells
 
 GRIDS = [(4, 4), (5, 7), (6, 5), (8, 8), (12, 10), (9, 4), (10, 6)]
 SHIFTS = ['cubic-rect', 'cubic-oblique', 'hex-rect', 'hex-oblique', 'hex-4index', 'triclinic-oblique',
-          'nobox-rect', 'nobox-oblique']
+          'nobox-rect', 'nobox-oblique', 'ortho-rect', 'ortho-oblique', 'mono-oblique']
 NPOS = [1, 2, 3, 4, 17]
 
 _PAIRS = {
@@ -21,19 +21,25 @@ _PAIRS = {
     'hex-oblique': [([1, 0, 0], [0, 1, 0]), ([1, 0, 0], [1, 1, 0]), ([1, 0, 0], [1, 0, 1])],
     'hex-4index': [([2 / 3, -1 / 3, -1 / 3, 0], [-1 / 3, 2 / 3, -1 / 3, 0]), ([1 / 3, 1 / 3, -2 / 3, 0], [0, 0, 0, 1]),
                    ([2 / 3, -1 / 3, -1 / 3, 0], [1 / 3, 1 / 3, -2 / 3, 1])],
+    # orthorhombic (a != b != c, all angles 90): cell edges are rectangular, face diagonals are not
+    'ortho-rect': [([1, 0, 0], [0, 1, 0]), ([1, 0, 0], [0, 0, 1]), ([0, 1, 0], [0, 0, 1]), ([1, 1, 0], [0, 0, 1])],
+    'ortho-oblique': [([1, 1, 0], [-1, 1, 0]), ([1, 0, 0], [1, 1, 0]), ([0, 1, 1], [0, -1, 1]), ([.5, .5, 0], [0, 1, 0])],
+    # monoclinic (beta != 90): a and c span the oblique (010) plane
+    'mono-oblique': [([1, 0, 0], [0, 0, 1]), ([1, 0, 1], [0, 0, 1]), ([1, 0, 0], [1, 0, 1]), ([.5, 0, .5], [-1, 0, 1])],
 }
 
 
 def surface_classes(i):
     """(shift class, grid, layout, with delta, energy kind, row order) for case i.
-    8 x 7 shift/grid combinations are all met in 56 consecutive cases; layout,
-    delta, kind and order cycle with periods coprime to those."""
-    shift = SHIFTS[i % 8]
+    11 x 7 shift/grid combinations are all met in 77 consecutive cases; layout (3),
+    delta (5) and order (13) cycle with periods coprime to those; the energy kind
+    alternates every 22 cases, i.e. inside every shift class."""
+    shift = SHIFTS[i % 11]
     grid = GRIDS[i % 7]
     layout = 'dup' if i % 3 == 0 else 'open'
     with_delta = i % 5 < 2
-    kind = 'rough' if (i // 8) % 2 else 'smooth'
-    order = 'shuffled' if i % 11 in (1, 4, 8) else 'sorted'
+    kind = 'rough' if (i // 22) % 2 else 'smooth'
+    order = 'shuffled' if i % 13 in (1, 4, 8, 11) else 'sorted'
     return shift, grid, layout, with_delta, kind, order
 
 
@@ -55,7 +61,7 @@ def shift_vectors(rng, shift):
             return None, None, l1 * R[0], l2 * R[1]
         ang = np.radians(rng.choice([rng.uniform(40, 80), rng.uniform(100, 140)]))
         return None, None, l1 * R[0], l2 * (np.cos(ang) * R[0] + np.sin(ang) * R[1])
-    kind = {'cubic': 'cubic', 'hex': 'hexagonal', 'triclinic': 'triclinic'}[fam]
+    kind = {'cubic': 'cubic', 'hex': 'hexagonal', 'triclinic': 'triclinic', 'ortho': 'orthorhombic', 'mono': 'monoclinic'}[fam]
     cell = cells.gen_cell(rng, kind)
     if fam == 'triclinic':
         while True:
